@@ -554,6 +554,26 @@ pub fn run(ctx: &Ctx, replay: Option<&J>) -> i32 {
         });
         ctx.set("quote_strings", json!(qwords.len()));
     }
+    // functions that compare captured values with each other: equality must not depend on where the
+    // captured values live (the reloaded function sees fresh copies of everything)
+    {
+        let twin_cfgs: Vec<Vec<&str>> = vec![
+            vec!["mk = (s) => (q) => q + s", "c = mk(\"a\")", "d = mk(\"a\")"],
+            vec!["mk = (s) => (q) => [q, s]", "c = mk([1])", "d = mk([1])"],
+            vec!["mk = (s) => (q) => s", "c = mk({k: 1})", "d = mk({k: 2})"],
+            vec!["mk = (s) => (q) => s(q)", "c = mk(n => n + 1)", "d = mk(n => n + 1)"],
+            vec!["c = [1, \"a\"]", "d = [1, \"a\"]"],
+            vec!["c = {k: [0 / 0]}", "d = c"],
+            vec!["s = \"shared\"", "c = [s, s]", "d = [s, \"sha\" + \"red\"]"],
+        ];
+        let bodies = ["[c == d, c .== d, c != d, c .!= d]", "[[c] == [d], {k: c} .== {k: d}, [c, x] .== [d, x]]", "len(unique([c, d, c]))", "[includes([c], d), includes([d, x], c)]", "[c .== c, d == d, [c, d] .== [c, d]]", "[ugte(c, d), ulte(c, c)]"];
+        let tcases: Vec<Case> = bodies.iter().map(|b| Case { body: b.to_string(), class: "compares-captures".into(), root_pipe: false }).collect();
+        par_for_ctx(ctx, twin_cfgs.len(), |i| {
+            for tc in &tcases {
+                check_case(ctx, tc, "compares-captures", &twin_cfgs[i], &args[..2]);
+            }
+        });
+    }
     // the real pipeline for a spread of functions
     let pipe_jobs: Vec<(usize, usize)> = jobs.iter().cloned().step_by(jobs.len() / if thorough { 3000 } else { 300 } + 1).collect();
     par_for_ctx(ctx, pipe_jobs.len(), |i| {
